@@ -13,6 +13,32 @@ def endianOf : String → Option Endian
     A kind prefixed with `v` runs on a restricted view (3 bytes before, 2 after); an optional fifth word
     `@l.t` or `@l₁.t₁/l₂.t₂/…` (outermost first) runs on a chain of nested RestrictViews whose innermost window is
     exactly `hexbuf`, view j cutting `l_j` bytes before and `t_j` bytes after its window. -/
+/-
+    The buffer word `<hexbuf>` (of a single case and of every `<buf>` of a `seq` case) is lower-case hex (`-` = empty)
+    or the descriptor `#N` = the N-byte PATTERN buffer (`patBytes`), N ≤ 2^25: the remaining-length sweep needs
+    buffers of 2^16 and 2^24 bytes. -/
+def patMax : Nat := 2 ^ 25
+
+/-- byte number `i` of the pattern buffer: positions next to each other differ, and so do positions 256 apart,
+    so a window read at a wrong offset shows in the value -/
+def patByte (i : Nat) : UInt8 := UInt8.ofNat (7 * i + 3 + i / 256)
+
+def patAux : Nat → Bytes → Bytes
+  | 0, acc => acc
+  | k + 1, acc => patAux k (patByte k :: acc)
+
+def patBytes (n : Nat) : Bytes := patAux n []
+
+def bufOf (w : String) : Option Bytes :=
+  if w.startsWith "#" then
+    let d := (w.drop 1).toString
+    if !d.isEmpty && d.all Char.isDigit then
+      match d.toNat? with
+      | some n => if n ≤ patMax then some (patBytes n) else none
+      | none => none
+    else none
+  else bytesOfHex w
+
 def stripV (ws : List String) : List String :=
   match ws with
   | k :: rest => (if k.startsWith "v" then (k.drop 1).toString else k) :: rest
@@ -105,8 +131,8 @@ the map of the single-step oracle over the steps, the cursor of each buffer bein
 
 def seqBuf (w : String) : Option Bytes :=
   match w.splitOn "@" with
-  | [h] => bytesOfHex h
-  | [h, v] => if (viewSpec ("@" ++ v)).isSome then bytesOfHex h else none
+  | [h] => bufOf h
+  | [h, v] => if (viewSpec ("@" ++ v)).isSome then bufOf h else none
   | _ => none
 
 /-- (buffer number, explicit cursor or none for "where the buffer is") -/
@@ -150,7 +176,7 @@ def model (line : String) : String :=
   | _ =>
     match core line with
     | [kind, arg, hex, pos] =>
-      match bytesOfHex hex, pos.toNat? with
+      match bufOf hex, pos.toNat? with
       | some s, some i => match modelStep kind arg s i with
         | some (out, _) => out
         | none => "bad-case"
@@ -164,7 +190,7 @@ def expected (line : String) : String :=
   | _ =>
     match core line with
     | [kind, arg, hex, pos] =>
-      match bytesOfHex hex, pos.toNat? with
+      match bufOf hex, pos.toNat? with
       | some s, some i => match expectStep kind arg s i with
         | some (out, _) => out
         | none => "bad-case"
@@ -237,6 +263,43 @@ def wordsOver {α : Type} (alphabet : List α) : Nat → List (List α)
 def showBuf (s : Bytes) (v : List (Nat × Nat)) : String :=
   hexOfBytes s ++ (if v.isEmpty then "" else "@" ++ "/".intercalate (v.map fun (l, t) => s!"{l}.{t}"))
 
+/-! ### REMAINING-LENGTH sweep (seed C19_9: `buf.remaining() as u8` compared with the width)
+
+What a parser does must depend on the bytes under the cursor and on whether `width` of them remain, not on HOW MANY
+remain nor on how far the cursor is from the start.  The sweep drives the remaining length (of the buffer, or of the
+window of a restricted view with more bytes behind it) and the cursor through every residue around the multiples of
+256 and around 2^16, 2^16 + 2^8 and 2^24, on pattern buffers (`#N`); the oracle is `BinSpec.window` as everywhere. -/
+
+/-- the fixed-width parsers of the sweep: (kind, byte order, width) -/
+def sweepInts : List (String × String × Nat) :=
+  [("u8", "be", 1), ("i8", "le", 1)] ++ (kinds.filter (·.2 > 1)).flatMap fun (k, w) => [(k, "be", w), (k, "le", w)]
+
+def sweepBvLens : List Nat := [0, 1, 2, 8, 255, 256, 257, 65535, 65536]
+
+/-- every parser of the sweep that is of interest with `rem` bytes left: all fixed-width parsers, and ByteVecP of
+    every listed length up to rem + 2 (successes, the exact fit, the two smallest failures) -/
+def sweepParsers (rem : Nat) : List (String × String × Nat) :=
+  sweepInts ++ (sweepBvLens.filter (· ≤ rem + 2)).map fun n => ("bv", toString n, n)
+
+/-- c - 8 … c + 8 -/
+def band (c : Nat) : List Nat := (List.range 17).filterMap fun d => if c + d ≥ 8 then some (c + d - 8) else none
+
+def nearMult256 (r : Nat) : Bool := r % 256 ≤ 8 || r % 256 ≥ 248
+
+/-- parser (k, a) with `rem` bytes left under cursor `c` of the pattern window `#(c + rem)` inside the view chain `v` -/
+def sweepCase (k a : String) (c rem : Nat) (v : List (Nat × Nat)) : String :=
+  s!"{k} {a} #{c + rem} {c}{showView v}"
+
+/-- (cursor, views): plain buffer at cursor 0 and 3; windows with 300 / 1 / 1+255 bytes BEHIND them in the allocation
+    (so the remaining length of the allocation has another residue than the remaining length of the window) -/
+def sweepCfgs : List (Nat × List (Nat × Nat)) :=
+  [(0, []), (3, []), (0, [(5, 300)]), (1, [(0, 1)]), (2, [(2, 1), (1, 255)])]
+
+def sweepCfgsFew : List (Nat × List (Nat × Nat)) := [(1, []), (0, [(5, 300)])]
+
+/-- the multiples of 256 whose neighbourhoods are swept beyond 0 … 600: 2^16 = 256·256, 2^16 + 2^8 = 257·256 -/
+def highKs : List Nat := [3, 4, 16, 255, 256, 257]
+
 def gen (seed n : Nat) (tier : String) (emit : String → IO Unit) : IO Unit := do
   -- ByteVecP: lengths from the whole usize range at every cursor position, on plain buffers and inside
   -- (nested) restricted views with zero and non-zero start
@@ -278,6 +341,45 @@ def gen (seed n : Nat) (tier : String) (emit : String → IO Unit) : IO Unit := 
     for n in lens do
       for ws in wordsOver ["0:=", "1:=", "2:=", "0:0", s!"1:{w}"] n do
         emit s!"seq {k} {a} {bufs} {",".intercalate ws}"
+  -- REMAINING-LENGTH sweep: every remaining length 0 … 600 (quick: the bands k·256 ± 8 and every 7th length outside
+  -- them) x every parser x {plain at cursor 0 / 3, three windows with bytes behind them}
+  let thorough := tier == "thorough"
+  for rem in (List.range 601).filter fun r => thorough || nearMult256 r || r % 7 == 0 || r == 600 do
+    for (k, a, _) in sweepParsers rem do
+      for (c, v) in sweepCfgs do
+        emit (sweepCase k a c rem v)
+  -- … and the bands k·256 - 8 … k·256 + 8 for k = 3, 4, 16, 255, 256 (2^16), 257 (2^16 + 2^8)
+  --   (quick: two of the five positions; from 255·256 on - buffers of 64 KiB - alternating between the two)
+  for kk in highKs do
+    for rem in band (kk * 256) do
+      for (k, a, _) in sweepParsers rem do
+        for (c, v) in (if thorough then sweepCfgs else if kk < 255 then sweepCfgsFew
+                       else (if rem % 2 == 0 then sweepCfgsFew.take 1 else sweepCfgsFew.drop 1)) do
+          emit (sweepCase k a c rem v)
+  -- LARGE CURSOR, short remaining: the cursor in the same bands, 0 / w-1 / w / w+1 (thorough also 1, w+8) bytes left
+  -- (quick: offsets 0, ±1, ±2, ±4, ±8, from 255·256 on 0, ±1 only and plain / window alternating)
+  for kk in [1, 2] ++ highKs do
+    for d in (if thorough then List.range 17 else if kk < 255 then [0, 4, 6, 7, 8, 9, 10, 12, 16] else [7, 8, 9]) do
+      let cur := kk * 256 + d - 8
+      for (k, a, w) in sweepInts ++ [0, 1, 2, 8].map (fun n => ("bv", toString n, n)) do
+        for rem in (if thorough then [0, 1, w - 1, w, w + 1, w + 8] else [0, w - 1, w, w + 1]).eraseDups do
+          for v in (if thorough then [[], [(5, 300)], [(2, 1), (1, 255)]] else if kk < 255 then [[], [(5, 300)]]
+                    else (if (d + rem) % 2 == 0 then [[]] else [[(5, 300)]])) do
+            emit (sweepCase k a cur rem v)
+  -- 2^24 (16 MiB buffers: 26 cases in thorough, one in quick)
+  let big := 2 ^ 24
+  if thorough then
+    for rem in [big - 1, big, big + 1, big + 7] do
+      for (k, a) in [("u16", "be"), ("i32", "le"), ("u64", "be"), ("bv", "65536")] do
+        emit (sweepCase k a 1 rem [])
+    emit (sweepCase "u16" "le" 0 big [(5, 300)])
+    emit (sweepCase "u64" "le" 0 (big + 5) [(5, 300)])
+    for cur in [big, big + 1] do
+      for (k, a, w) in [("u16", "be", 2), ("u64", "le", 8)] do
+        for rem in [w - 1, w] do
+          emit (sweepCase k a cur rem [])
+  else
+    emit (sweepCase "u16" "be" 1 big [])
   -- exhaustive 8-bit patterns, every remaining-length 0..1, both kinds
   for b in List.range 256 do
     for k in ["u8", "i8"] do
@@ -315,7 +417,7 @@ def gen (seed n : Nat) (tier : String) (emit : String → IO Unit) : IO Unit := 
         emit s!"{k} {e} {hexOfBytes p} 0"
   -- random
   let mut r := Rng.mk' seed
-  for _ in List.range n do
+  for it in List.range n do
     let (len, r1) := r.nat 12
     let (s, r2) := Rng.bytes len r1
     let (pos, r3) := r2.nat (len + 1)
@@ -382,14 +484,33 @@ def gen (seed n : Nat) (tier : String) (emit : String → IO Unit) : IO Unit := 
       steps := steps ++ [if stay == 0 then s!"{b}:=" else s!"{b}:{p}"]
     let (pk, pa) := if isBv == 0 then ("bv", toString bn) else (k, e)
     emit s!"seq {pk} {pa} {",".intercalate (bufs.map fun (bs, v) => showBuf bs v)} {",".intercalate steps}"
+    -- remaining-length sweep, random: remaining = k·256 - 8 … k·256 + 8 (k = 0 … 8; every 32nd case k = 16, 255, 256,
+    -- 257), random cursor < 700, random parser, plain or inside a window with random lead < 6 and 0 … 399 bytes behind it
+    let (kSmall, r16) := r.nat 9
+    let (d, r17) := r16.nat 17
+    let (cur, r18) := r17.nat 700
+    let ((sk, sa, _), r19) := r18.pick sweepInts
+    let (bvSel, r20) := r19.nat 3
+    let (lead, r21) := r20.nat 6
+    let (trail, r22) := r21.nat 400
+    let (kBig, r23) := r22.pick [16, 255, 256, 257]
+    let (x2, r24) := r23.next
+    r := r24
+    let rem := (if it % 32 == 0 then kBig else kSmall) * 256 + d - 8
+    let lens := sweepBvLens.filter (· ≤ rem + 2)
+    let (pk2, pa2) := if bvSel == 0 then ("bv", toString (lens.getD (x2.toNat % lens.length) 0)) else (sk, sa)
+    emit (sweepCase pk2 pa2 cur rem (if x2.toNat / 1024 % 2 == 0 then [] else [(lead, trail)]))
 
 /-- non-trivial: a successful multi-byte decode or a short-buffer failure at a non-zero cursor; a reuse
     sequence: at least two uses of a parser other than UInt8P -/
+def twoBytes (hex : String) : Bool :=
+  if hex.startsWith "#" then ((hex.drop 1).toString.toNat?).getD 0 ≥ 2 else hex.length ≥ 4
+
 def nontrivial (line : String) : Bool :=
   match words line with
-  | [k, _, hex, pos] => k != "u8" && (hex.length ≥ 4 || pos != "0")
+  | [k, _, hex, pos] => k != "u8" && (twoBytes hex || pos != "0")
   | ["seq", k, _, _, steps] => k != "u8" && (steps.splitOn ",").length ≥ 2
-  | [k, _, hex, pos, _] => k != "u8" && (hex.length ≥ 4 || pos != "0")
+  | [k, _, hex, pos, _] => k != "u8" && (twoBytes hex || pos != "0")
   | _ => false
 
 def driver : PropDriver := { gen, model, judge, nontrivial }
